@@ -150,12 +150,6 @@ impl BytePipe {
     pub fn stall(&self, dir: usize) {
         self.lock().dirs[dir].stalled = true;
     }
-
-    /// Was endpoint `side` told (by a read or a write) that the connection is over?
-    pub fn told(&self, side: usize) -> bool {
-        let l = self.lock();
-        l.told_rd[side] || l.told_wr[side]
-    }
 }
 
 #[derive(Debug)]
